@@ -118,6 +118,7 @@ package tools
 // file in the directory given).
 //@ func Spool
 //@   props C08 C09
+//@   monitor lastspoolerr[0] := result1
 //@   requires @inv to != nil && from != nil
 //@   requires @C09 !isobjdir(dir)
 //@   ensures result1 == nil && !dyntype(to, "*os.File") && !is_tee(to) ==> wbuf(to) == scat(old(wbuf(to)), old(rrest(from))) && result0 == len(old(rrest(from)))
